@@ -715,12 +715,19 @@ func (c *diskCache) get(ctx context.Context, kind cache.EntryKind, hash string, 
 		return nil, -1, internalErr(err)
 	}
 
+	uncompressedOnDisk := (kind != cache.CAS) || (c.storageMode == casblob.Identity)
+	if uncompressedOnDisk && sizeOnDisk != foundSize {
+		// The backend delivered fewer (or more) bytes than the size it
+		// reported, e.g. a stream that ended early without an error.
+		return nil, -1, internalErr(fmt.Errorf("expected %d bytes from the proxy backend, got %d",
+			foundSize, sizeOnDisk))
+	}
+
 	rcf, err := os.Open(blobFile)
 	if err != nil {
 		return nil, -1, internalErr(err)
 	}
 
-	uncompressedOnDisk := (kind != cache.CAS) || (c.storageMode == casblob.Identity)
 	if uncompressedOnDisk {
 		if offset > 0 {
 			_, err = rcf.Seek(offset, io.SeekStart)
